@@ -623,3 +623,71 @@ Contract(
     },
     properties=["C04", "C07", "C11", "C12"],
 )
+
+
+# ---------------------------------------------------------------------------
+# preprocessing of the rc2 operators: partition by keys + CNFs  (establishes Inv_es)
+# ---------------------------------------------------------------------------
+from contracts.spec import PSK  # noqa: E402
+
+ES_PRE = dict(ES_RC2)
+ES_PRE["partition"] = TFalseOr(TList(TList(TInt)))
+TS_PRE = TObj("TseitinTransformation", {"epistemic_state": TRec(ES_PRE)})
+
+
+def _cnf_inv_only(c, selfname="self"):
+    d = _val(c, selfname)
+    f, nf = _es(c, "f_cnf_dict", selfname), _es(c, "nf_cnf_dict", selfname)
+    k = z3.Int("_ies2_k")
+    return L.Forall(
+        [k],
+        [L.mem_Int(d.keys, k)],
+        z3.Implies(
+            L.mem_Int(d.keys, k),
+            z3.And(L.mem_Int(f.keys, k), L.mem_Int(nf.keys, k), Den(z3.Select(f.val, k)) == L.fal(z3.Select(d.val, k)), Den(z3.Select(nf.val, k)) == L.nf(z3.Select(d.val, k))),
+        ),
+        "Inv_es.cnf",
+    )
+
+
+Contract(
+    "inference.tseitin_transformation:TseitinTransformation.belief_base_to_cnf",
+    params={"self": TS_PRE, "v": TBool, "f": TBool, "nf": TBool},
+    returns=TFloat,
+    requires=lambda c: [c.f.t, c.nf.t],
+    ensures=lambda c, r: [_cnf_inv_only(c)],
+    modifies=["self.epistemic_state.f_cnf_dict", "self.epistemic_state.nf_cnf_dict", "self.epistemic_state.v_cnf_dict"],
+    trusted=True,
+    note="ASSUMED (C15 part 1): after the call every base key has falsification / non-falsification clause lists that denote fal / nf of its conditional; truth-table checked by module c15",
+)
+
+
+def _pre_post(weakly_of):
+    def post(c, r):
+        d = _val(c)
+        p = _es(c, "partition")
+        x = (d.val,)
+        st = PSK.stop(*x, d.keys)
+        rest = PSK.GR(*x, d.keys, st)
+        w = weakly_of(c)
+        return [
+            p.isfalse == z3.If(w, L.isempty(PSK.KL(x, rest)), LInt.len(rest) > 0),
+            z3.Implies(z3.Not(p.isfalse), p.val.t == z3.If(w, LLInt.snoc(PSK.GLs(*x, d.keys, st), PSK.GR(*x, d.keys, st + 1)), PSK.GLs(*x, d.keys, st))),
+            _cnf_inv_only(c),
+        ]
+
+    return post
+
+
+for _cls, _mod, _wk in (
+    ("SystemW", "inference.system_w", lambda c: c.weakly.t),
+    ("LexInf", "inference.lex_inf", lambda c: c.old.es("weakly").t),
+):
+    Contract(
+        f"{_mod}:{_cls}._preprocess_belief_base",
+        params={"self": TObj(_cls, {"epistemic_state": TRec(ES_PRE)}), "weakly": TBool, "deadline": DeadlineT},
+        returns=TNone,
+        ensures=_pre_post(_wk),
+        properties=["C03" if _cls == "SystemW" else "C04", "C07", "C12", "C13"],
+        note="partition = greedy partition of the base's keys (arbitrary distinct integer keys); CNF invariant from the assumed belief_base_to_cnf",
+    )
